@@ -255,7 +255,7 @@ static void GC_Rem_Ptr(struct GC* gc, var ptr) {
   for (size_t i = 0; i < gc->freenum; i++) {
     if (gc->freelist[i] is ptr) {
       gc->freelist[i] = (var)((uintptr_t)ptr | 1);
-      dealloc(destruct(ptr));
+      destruct(ptr);
       return;
     }
     if (gc->freelist[i] is (var)((uintptr_t)ptr | 1)) { return; }
@@ -520,8 +520,15 @@ void GC_Sweep(struct GC* gc) {
     var item = gc->freelist[i];
     if (not ((uintptr_t)item & 1)) {
       gc->freelist[i] = (var)((uintptr_t)item | 1);
-      dealloc(destruct(item));
+      destruct(item);
     }
+  }
+  
+  /* The memory is released only now: as long as destructors run, which may
+  ** allocate, no address on the list can be handed out a second time and
+  ** be taken for the object that has been finalised */
+  for (size_t i = 0; i < gc->freenum; i++) {
+    dealloc((var)((uintptr_t)gc->freelist[i] & ~(uintptr_t)1));
   }
   
   free(gc->freelist);
